@@ -663,7 +663,12 @@ impl Story {
             // the temporary context, but attempt to create them globally
             // var prioritiseHigherInCallStack = _temporaryEvaluationContainer
             // != null;
-            let assigned_val = assigned_val.into_any().downcast::<Value>().unwrap();
+            let Ok(assigned_val) = assigned_val.into_any().downcast::<Value>() else {
+                return Err(StoryError::InvalidStoryState(format!(
+                    "Attempting to assign a void value to '{}'. Did you forget to 'return' a value from a function you called here?",
+                    var_ass.variable_name
+                )));
+            };
             self.get_state_mut()
                 .variables_state
                 .assign(var_ass, assigned_val)?;
